@@ -187,6 +187,8 @@ struct Rules {
     mac1: BTreeMap<String, String>,
     /// callee path (as written) -> replacement path
     path: BTreeMap<String, String>,
+    /// replacement for closure literals that have no CLOSURE directive (opaque value); None = exit 2
+    default_closure: Option<String>,
 }
 
 #[derive(Default)]
@@ -205,6 +207,8 @@ struct BodySpec {
     after_stmt: Vec<(String, usize, String)>,
     closures: BTreeMap<usize, String>,
     optional_closures: Vec<usize>,
+    before_opt: Vec<bool>,
+    after_opt: Vec<bool>,
     optional_loops: Vec<usize>,
     replace: Vec<(String, String, bool)>, // original (normalized), replacement, optional
     keep_unsafe: bool,
@@ -661,6 +665,12 @@ impl<'a, 'ast> Visit<'ast> for Rewriter<'a> {
                         }
                         return;
                     }
+                    None if self.spec.rules.default_closure.is_some() => {
+                        let rep = self.spec.rules.default_closure.clone().unwrap();
+                        self.edit(cs, ce, rep, 0);
+                        self.notes.push(format!("R9 closure #{} at {}:{} made opaque (no directive: default)", n, self.src.rel, self.src.line_of(cs)));
+                        return;
+                    }
                     None => die(&format!(
                         "{}:{}: closure #{} in {} has no CLOSURE directive",
                         self.src.rel,
@@ -930,6 +940,10 @@ fn main() {
             let (k, v) = split_arrow(r);
             unit_rules.panic.push((k.trim_matches('"').to_string(), v));
             ln += 1;
+        } else if let Some(r) = d.strip_prefix("UNIT-DEFAULT-CLOSURE ") {
+            let (_, v) = split_arrow(r);
+            unit_rules.default_closure = Some(v);
+            ln += 1;
         } else if let Some(r) = d.strip_prefix("UNIT-PATH ") {
             let (k, v) = split_arrow(r);
             unit_rules.path.insert(k, v);
@@ -1073,11 +1087,12 @@ fn main() {
                         }
                         "BEFORE" | "AFTER" => {
                             // arg: [#n] prefix text
+                            let (arg, opt) = match arg.strip_prefix("optional ") { Some(a) => (a.trim(), true), None => (arg, false) };
                             let (ord, pre) = if arg.starts_with('#') {
                                 let sp = arg.find(' ').unwrap_or(arg.len());
                                 (arg[1..sp].parse().unwrap_or(0), arg[sp..].trim())
                             } else { (0usize, arg) };
-                            if kind == "BEFORE" { spec.before_stmt.push((norm_ws(pre), ord, txt)); } else { spec.after_stmt.push((norm_ws(pre), ord, txt)); }
+                            if kind == "BEFORE" { spec.before_stmt.push((norm_ws(pre), ord, txt)); spec.before_opt.push(opt); } else { spec.after_stmt.push((norm_ws(pre), ord, txt)); spec.after_opt.push(opt); }
                         }
                         "REPLACE" => { *pending_replace = Some((norm_ws(&txt), arg == "optional")); }
                         "WITH" => {
@@ -1242,12 +1257,12 @@ fn main() {
                 }
             }
             for (k, u) in rw.used_before.iter().enumerate() {
-                if !u {
+                if !u && !spec.before_opt[k] {
                     die(&format!("anchor lost: statement `{}` in {}", spec.before_stmt[k].0, spec.func));
                 }
             }
             for (k, u) in rw.used_after.iter().enumerate() {
-                if !u {
+                if !u && !spec.after_opt[k] {
                     die(&format!("anchor lost: statement `{}` in {}", spec.after_stmt[k].0, spec.func));
                 }
             }
